@@ -2,11 +2,11 @@
 (* Trace specification for the attack command end to end: one event Run{c, o} per case run through the real command. *)
 EXTENDS Integers, Sequences, FiniteSets, TLC, TraceKit
 A == INSTANCE AttackCmd
-VARIABLES l
-TInit == InitHighWater /\ l = 1
-TReset == IsEv(l, "Reset") /\ l' = l + 1
-TRun == IsEv(l, "Run") /\ A!CmdOK(Ev(l).c, Ev(l).o) /\ l' = l + 1
+VARIABLES l, for        \* for = the check that is asking (the Reset event says)
+TInit == InitHighWater /\ l = 1 /\ for = "ACMD"
+TReset == IsEv(l, "Reset") /\ for' = Ev(l).for /\ l' = l + 1
+TRun == IsEv(l, "Run") /\ A!CmdOKFor(Ev(l).c, Ev(l).o, for) /\ l' = l + 1 /\ UNCHANGED for
 TNext == TReset \/ TRun
-TSpec == TInit /\ [][TNext]_<<l>>
+TSpec == TInit /\ [][TNext]_<<l, for>>
 HW == HighWater(l)
 =============================================================================
